@@ -122,57 +122,78 @@ Proof. exact spec_ok_no_equivocation. Qed.
 Print Assumptions C02_spec_ok_sound.
 
 (* ------------------------------------------------------------------------------------------
-   ATTEST-ONCE along single runs of the executable agreement model (the premise of crash_nonequiv).
+   ATTEST-ONCE along single runs of the executable agreement model (the premise of crash_nonequiv),
+   for every parameter set with positive thresholds and EVERY event sequence.
 
-   C02_attest_once_partial -- PROVED for every parameter set with positive thresholds and EVERY event
-   sequence (premises [trace_ok2]: no uint64 wrap-around of round / period / step counters, round
-   interruptions move forward, verified payloads are of the player's round):
-     soft votes     by the Step soft -> cert transition,
-     next_k votes   (3 <= k < 253) by the napping / step++ discipline,
-   via the invariant "the position (round, period, 2*step + [not napping]) never decreases and every
-   soft / next_k attest crosses the boundary of its key" (proofs/AgreementAttestOnce.v).
-   MISSING (not proved here):
-     cert   needs the bind-once invariant of proposalTracker.Staging for (r,p): set by the single soft
-            threshold of (r,p) (contract: SawSoftThreshold) or by the round's first cert threshold
-            (voteTrackerRound keeps only the first), after which ensure / stageDigest pre-empt the attest;
-     late   same invariant (the value is the committable staged value);
-     redo   the value is voteTrackerPeriod.Cached of period p-1: unique only under
-            [thresholds_consistent] (next-type quorums of one period agree on their non-bottom value;
-            discharged in C01 from quorum intersection) -- C02_attest_once_redo_needs_consistency shows
-            that it FAILS without it, on the model and (harness, directed case) on the real code;
-     down   is bottom by construction, but a next vote of step 255 shares its key: needs step < late
-            (252 consecutive deadline timeouts; each doubles the wait).
-   The harness checks attest-once for ALL steps on every real single run (S3 of model/C02Check.v). *)
+   C02_attest_once (all step kinds).  Premises: [trace_ok3] = no uint64 wrap-around of the round /
+   period / step counters, round interruptions move forward, verified payloads are of the player's
+   round, deadline timeouts arrive at steps below 252 (so no next vote shares a key with late / redo /
+   down: each timeout doubles the wait, 250 of them never happen), first round > 0; and
+   value-consistency of the thresholds that the delivered votes can back ([cons_sc]: soft/cert
+   thresholds of one (round, period) agree; [cons_next]: next-type thresholds of one (round, period)
+   agree on their non-bottom value) -- the quorum-intersection facts, discharged in C01.
+   Proof (proofs/AgreementAttestOnce.v, AgreementStaging.v):
+     soft, next_k   the position (round, period, 2*step + [not napping]) never decreases and every such
+                    attest crosses the boundary of its key (no consistency premise needed:
+                    C02_attest_once_soft_next);
+     cert, late     bind-to-threshold invariant of the router tree: a non-bottom
+                    proposalTracker.Staging of (r,p) is the value of a soft/cert threshold of (r,p)
+                    backed by delivered votes (written only by handle(soft/certThreshold); GC only
+                    deletes or zeroes nodes); a cert attest carries the value of the threshold that
+                    made the period committable or the staged value (non-bottom because the payload is
+                    of round r > 0), a late attest the committable staged value;
+     redo           voteTrackerPeriod.Cached of (r,p-1) non-bottom => value of a next-type threshold of
+                    (r,p-1) backed by delivered votes;
+     down           bottom by construction.
+   C02_attest_once_redo_needs_consistency: without [cons_next] attest-once FAILS for redo (model, and
+   directed case of the harness on the real code). *)
 From Coq Require Import NArith.
 From Verif.model Require Import AgreementPlayer.
-From Verif.proofs Require Import AgreementVoteProofs AgreementC03Proofs AgreementAttestOnce.
+From Verif.proofs Require Import AgreementVoteProofs AgreementC03Proofs AgreementAttestOnce AgreementStaging.
 Open Scope N_scope.
 
-Theorem C02_attest_once_partial : forall pm r0 es,
+Theorem C02_attest_once : forall pm r0 es,
+  params_pos pm -> 0 < r0 -> trace_ok3 pm (init pm r0) es ->
+  cons_sc pm (delivered es) -> cons_next pm (delivered es) ->
+  forall r p s v v',
+    In (AAttest r p s v) (all_acts pm (init pm r0) es) ->
+    In (AAttest r p s v') (all_acts pm (init pm r0) es) -> v = v'.
+Proof. exact attest_once_all_proof. Qed.
+Print Assumptions C02_attest_once.
+
+(* anti-vacuity: a run that meets every premise and attests soft, cert, late and next_3 *)
+Example C02_attest_once_nonvacuous :
+  params_pos pmx /\ 0 < 5 /\ trace_ok3 pmx (init pmx 5) script_all /\
+  cons_sc pmx (delivered script_all) /\ cons_next pmx (delivered script_all) /\
+  filter (fun a => match a with AAttest _ _ _ _ => true | _ => false end) (all_acts pmx (init pmx 5) script_all)
+  = [AAttest 5 0 1 vx1; AAttest 5 0 2 vx1; AAttest 5 0 253 vx1; AAttest 5 0 3 vx1].
+Proof. exact attest_once_all_nonvacuous. Qed.
+
+(* the consistency premises are satisfiable: they hold whenever the delivered votes carry one value *)
+Example C02_consistency_satisfiable : forall pm D v0,
+  params_pos pm -> (forall x, In x D -> vt_val x = v0) -> cons_sc pm D /\ cons_next pm D.
+Proof. exact cons_single_value. Qed.
+
+(* soft and next_k need no consistency premise and only the weaker trace premises [trace_ok2] *)
+Theorem C02_attest_once_soft_next : forall pm r0 es,
   params_pos pm -> trace_ok2 pm (init pm r0) es ->
   forall r p s v v', tracked s = true ->
     In (AAttest r p s v) (all_acts pm (init pm r0) es) ->
     In (AAttest r p s v') (all_acts pm (init pm r0) es) -> v = v'.
 Proof. exact attest_once_soft_next_proof. Qed.
-Print Assumptions C02_attest_once_partial.
+Print Assumptions C02_attest_once_soft_next.
 
 (* stronger form: a soft / next_k key does not even occur twice in the action stream of a run *)
-Theorem C02_attest_at_most_once_partial : forall pm r0 es,
+Theorem C02_attest_at_most_once_soft_next : forall pm r0 es,
   params_pos pm -> trace_ok2 pm (init pm r0) es ->
   forall l1 l2 l3 r p s v v', tracked s = true ->
     all_acts pm (init pm r0) es <> l1 ++ AAttest r p s v :: l2 ++ AAttest r p s v' :: l3.
 Proof. exact attest_at_most_once_proof. Qed.
-Print Assumptions C02_attest_at_most_once_partial.
+Print Assumptions C02_attest_at_most_once_soft_next.
 
-(* anti-vacuity: a run that meets the premises and attests soft, next_3 and next_4 *)
-Example C02_attest_once_nonvacuous :
-  params_pos pmx /\ trace_ok2 pmx (init pmx 5) script_soft_next /\
-  filter (fun a => match a with AAttest _ _ _ _ => true | _ => false end) (all_acts pmx (init pmx 5) script_soft_next)
-  = [AAttest 5 0 1 vx1; AAttest 5 0 3 bottom; AAttest 5 0 4 bottom].
-Proof. exact (conj pmx_pos (conj script_soft_next_ok script_soft_next_acts)). Qed.
-
-(* the hypothesis for the remaining steps is not decorative: a run that meets every premise of
-   C02_attest_once_partial attests redo for two values; its delivered votes are not threshold-consistent *)
+(* the consistency premise is not decorative: a run that meets every premise of
+   C02_attest_once_soft_next attests redo for two values; its delivered votes back two next-type
+   thresholds of one period with different values *)
 Theorem C02_attest_once_redo_needs_consistency :
   params_pos pmx /\ trace_ok2 pmx (init pmx 5) script_redo /\
   In (AAttest 5 1 s_redo vx1) (all_acts pmx (init pmx 5) script_redo) /\
@@ -181,20 +202,40 @@ Theorem C02_attest_once_redo_needs_consistency :
 Proof. exact redo_needs_consistency. Qed.
 Print Assumptions C02_attest_once_redo_needs_consistency.
 
-(* ... and it is satisfiable: it holds whenever the delivered votes carry a single value *)
-Example C02_thresholds_consistent_satisfiable : forall pm D v0,
-  params_pos pm -> (forall x, In x D -> vt_val x = v0) -> thresholds_consistent pm D.
-Proof. exact thresholds_consistent_single_value. Qed.
+(* ... and it is exactly the premise [cons_next] of C02_attest_once that this run violates *)
+Theorem C02_redo_counterexample_violates_cons_next : ~ cons_next pmx (delivered script_redo).
+Proof. exact script_redo_not_cons_next. Qed.
+Print Assumptions C02_redo_counterexample_violates_cons_next.
 
 (* ------------------------------------------------------------------------------------------
-   The two halves composed, for the proved steps: the agreement model (guarded by the decidable
-   trace premises: an offending event or a model panic stops the machine) inside the fine-grained
-   persist-before-release wrapper never releases two different values for one (sender, round, period,
-   step) with step = soft or next_k -- for EVERY interleaving of events, writes, failed writes,
-   checkpoint deliveries and crashes.  _partial: cert / late / redo / down as listed above. *)
+   The two halves composed: the agreement model inside the fine-grained persist-before-release
+   wrapper never releases two different values for one (sender, round, period, step), for EVERY
+   interleaving of events, writes, failed writes, checkpoint deliveries and crashes.  The machine is
+   guarded by the decidable trace premises and by ANY sound decidable consistency checker [cons_b]
+   (an offending event or a model panic stops the machine); C02_consistency_checker_exists gives one.
+   C02_model_nonequiv_soft_next: soft / next_k only, without any consistency guard. *)
 From Verif.proofs Require Import C02Compose.
 
-Theorem C02_model_nonequiv_soft_next_partial :
+Theorem C02_model_nonequiv :
+  forall pm own cons_b r0 (restore : g3state -> g3state) (eqv : g3state -> g3state -> Prop),
+    params_pos pm -> 0 < r0 -> (forall D, cons_b D = true -> cons_sc pm D /\ cons_next pm D) ->
+    (forall s, eqv s s) -> (forall a b c, eqv a b -> eqv b c -> eqv a c) ->
+    (forall s s' e, eqv s s' -> snd (gstep3 pm own cons_b s e) = snd (gstep3 pm own cons_b s' e) /\
+                                eqv (fst (gstep3 pm own cons_b s e)) (fst (gstep3 pm own cons_b s' e))) ->
+    (forall s, eqv (restore s) s) ->
+    forall ops v1 v2,
+      In v1 (f_released g3state ext_event cvote (frun g3state ext_event cvote (Some (init pm r0, [])) (gstep3 pm own cons_b) restore ops)) ->
+      In v2 (f_released g3state ext_event cvote (frun g3state ext_event cvote (Some (init pm r0, [])) (gstep3 pm own cons_b) restore ops)) ->
+      ~ (cv_snd v1 = cv_snd v2 /\ cv_rnd v1 = cv_rnd v2 /\ cv_per v1 = cv_per v2 /\ cv_step v1 = cv_step v2 /\
+         cv_val v1 <> cv_val v2).
+Proof. exact model_nonequiv_all. Qed.
+Print Assumptions C02_model_nonequiv.
+
+Example C02_consistency_checker_exists : forall pm v0, params_pos pm ->
+  forall D, single_value_b v0 D = true -> cons_sc pm D /\ cons_next pm D.
+Proof. exact single_value_b_sound. Qed.
+
+Theorem C02_model_nonequiv_soft_next :
   forall pm own r0 (restore : mstate -> mstate) (eqv : mstate -> mstate -> Prop),
     params_pos pm ->
     (forall s, eqv s s) -> (forall a b c, eqv a b -> eqv b c -> eqv a c) ->
@@ -207,4 +248,4 @@ Theorem C02_model_nonequiv_soft_next_partial :
       ~ (cv_snd v1 = cv_snd v2 /\ cv_rnd v1 = cv_rnd v2 /\ cv_per v1 = cv_per v2 /\ cv_step v1 = cv_step v2 /\
          tracked (cv_step v1) = true /\ cv_val v1 <> cv_val v2).
 Proof. exact model_nonequiv_soft_next. Qed.
-Print Assumptions C02_model_nonequiv_soft_next_partial.
+Print Assumptions C02_model_nonequiv_soft_next.
